@@ -301,7 +301,11 @@ def run_once(rec, root, cfg, opt, reg, sets, expected, case):
     if os.path.isdir(outdir):
         shutil.rmtree(outdir)
     if opt["output"] == "file":
-        out_fs = Collocations(path=root + "/" + OUT_TEMPLATE, handler=handler(), read_mode="compact")
+        if opt.get("netcdf"):
+            # the default handler chosen from the suffix (NetCDF4), as Collocations.search is documented
+            out_fs = Collocations(path=root + "/" + OUT_TEMPLATE[:-4] + ".nc", read_mode="compact")
+        else:
+            out_fs = Collocations(path=root + "/" + OUT_TEMPLATE, handler=handler(), read_mode="compact")
     start = DAY0 + D(seconds=cfg["start"])
     end = DAY0 + D(seconds=cfg["end"])
     kw = dict(start=start, end=end, processes=opt["processes"], bundle=opt["bundle"],
@@ -393,8 +397,18 @@ def run_once(rec, root, cfg, opt, reg, sets, expected, case):
         for d, _, fs in os.walk(outdir):
             files += [os.path.join(d, f) for f in fs]
         for p in sorted(files):
-            with open(p, "rb") as fh:
-                ds = pickle.load(fh)
+            if opt.get("netcdf"):
+                try:
+                    ds = out_fs.read(p)
+                    rec.count("output.netcdf_files")
+                except Exception as exc:
+                    rec.violation("output-readback", case, {"why": "NetCDF collocation file cannot be read",
+                                                            "exception": repr(exc),
+                                                            "trace": traceback.format_exc()[-800:]})
+                    return None
+            else:
+                with open(p, "rb") as fh:
+                    ds = pickle.load(fh)
             sv = collocmon.structure_violation(ds)
             if sv:
                 rec.violation("collocation-structure", case, dict(sv, file=os.path.basename(p)))
@@ -403,7 +417,8 @@ def run_once(rec, root, cfg, opt, reg, sets, expected, case):
             t = ds["A/time"].values
             lo = np.datetime64(t.min(), "s").astype(dt.datetime)
             hi = np.datetime64(t.max(), "s").astype(dt.datetime)
-            want = "%s-%s.pkl" % (lo.strftime("%Y%m%d_%H%M%S"), hi.strftime("%Y%m%d_%H%M%S"))
+            want = "%s-%s.%s" % (lo.strftime("%Y%m%d_%H%M%S"), hi.strftime("%Y%m%d_%H%M%S"),
+                                 "nc" if opt.get("netcdf") else "pkl")
             if os.path.basename(p) != want:
                 rec.violation("output-name", case, {"why": "file name is not the time span of its content",
                                                     "name": os.path.basename(p), "want": want})
@@ -509,7 +524,7 @@ def run_config(rec, rng, cfg):
                          "slow_consumer": rng.random() < 0.4, "main_delay": rng.random() < 0.5})
         fopt = {"output": "file", "processes": rng.choice([1, 2, 4]),
                 "bundle": rng.choice([None, "primary", "daily"]), "delays": rng.random() < 0.5,
-                "delay_seed": rng.randrange(100)}
+                "delay_seed": rng.randrange(100), "netcdf": rng.random() < 0.35}
         opts.append(fopt)
         nontriv = bool(expected["must"]) and len(sets["A"]["files"]) + len(sets["B"]["files"]) >= 3
         for opt in opts:
@@ -575,7 +590,8 @@ def classify_file_output(rec, root, cfg, opt, reg, sets, expected, info, case, f
         t = r["ds"]["A/time"].values
         lo = np.datetime64(t.min(), "s").astype(dt.datetime)
         hi = np.datetime64(t.max(), "s").astype(dt.datetime)
-        name = "%s-%s.pkl" % (lo.strftime("%Y%m%d_%H%M%S"), hi.strftime("%Y%m%d_%H%M%S"))
+        name = "%s-%s.%s" % (lo.strftime("%Y%m%d_%H%M%S"), hi.strftime("%Y%m%d_%H%M%S"),
+                             "nc" if opt.get("netcdf") else "pkl")
         groups.setdefault(name, []).append(frozenset(r["pairs"]))
     collided = {n: g for n, g in groups.items() if len(g) > 1}
     explained = bool(collided)
